@@ -27,6 +27,7 @@ inductive EncErr where
   | nonStrKey     -- "Dict key must be str"
   | unsupported   -- "Type is not JSON serializable: ..." (json_default raised TypeError)
   | timeTz        -- "datetime.time must not have tzinfo set"
+  | depth         -- "Recursion limit reached": more than 254 nested containers
   | notUtf8       -- (model only) `bytes.decode` of the encoder's output failed; shown impossible
 deriving DecidableEq, Repr
 
@@ -149,7 +150,8 @@ def tTrue : List Nat := [116, 114, 117, 101]
 def tFalse : List Nat := [102, 97, 108, 115, 101]
 
 mutual
-def encode : JVal → Except EncErr (List Nat)
+/-- the serialisation proper, without orjson's nesting limit (see `encode`) -/
+def encodeU : JVal → Except EncErr (List Nat)
   | .null => .ok tNull
   | .bool true => .ok tTrue
   | .bool false => .ok tFalse
@@ -161,7 +163,7 @@ def encode : JVal → Except EncErr (List Nat)
   | .str s => encStrE s
   | .arr [] => .ok [91, 93]
   | .arr (x :: xs) =>
-    match encode x with
+    match encodeU x with
     | .error e => .error e
     | .ok a => match encTail xs with
       | .error e => .error e
@@ -170,7 +172,7 @@ def encode : JVal → Except EncErr (List Nat)
   | .obj ((k, v) :: kvs) =>
     match encStrE k with
     | .error e => .error e
-    | .ok a => match encode v with
+    | .ok a => match encodeU v with
       | .error e => .error e
       | .ok b => match encMembers kvs with
         | .error e => .error e
@@ -179,7 +181,7 @@ def encode : JVal → Except EncErr (List Nat)
 def encTail : List JVal → Except EncErr (List Nat)
   | [] => .ok [93]
   | x :: xs =>
-    match encode x with
+    match encodeU x with
     | .error e => .error e
     | .ok a => match encTail xs with
       | .error e => .error e
@@ -190,12 +192,38 @@ def encMembers : List (List Nat × JVal) → Except EncErr (List Nat)
   | (k, v) :: kvs =>
     match encStrE k with
     | .error e => .error e
-    | .ok a => match encode v with
+    | .ok a => match encodeU v with
       | .error e => .error e
       | .ok b => match encMembers kvs with
         | .error e => .error e
         | .ok c => .ok (44 :: (a ++ 58 :: (b ++ c)))
 end
+
+mutual
+/-- nesting depth: number of containers around the innermost value -/
+def JVal.depth : JVal → Nat
+  | .null => 0
+  | .bool _ => 0
+  | .int _ => 0
+  | .num _ => 0
+  | .str _ => 0
+  | .arr xs => depthList xs + 1
+  | .obj kvs => depthMembers kvs + 1
+def depthList : List JVal → Nat
+  | [] => 0
+  | x :: xs => max x.depth (depthList xs)
+def depthMembers : List (List Nat × JVal) → Nat
+  | [] => 0
+  | (_, v) :: kvs => max v.depth (depthMembers kvs)
+end
+
+/-- orjson's recursion limit: a value nested in more than 254 containers is refused -/
+def maxDepth : Nat := 254
+
+/-- `orjson.dumps` on a natively supported value: refused with "Recursion limit reached" when it
+is nested deeper than `maxDepth`, else `encodeU` -/
+def encode (v : JVal) : Except EncErr (List Nat) :=
+  if v.depth ≤ maxDepth then encodeU v else .error .depth
 
 /-! ## Decoder: `json.loads` on whitespace-free text -/
 
